@@ -390,6 +390,9 @@ def deepest_layer(frame_results, parts):
 
 
 def pred(case, stats):
+    import os
+    if os.environ.get('VP_C08_NO_WATCHDOG'):
+        return _pred(case, stats)       # inside libFuzzer, which owns SIGALRM (its -timeout catches hangs)
     tries = 0
     while True:
         tries += 1
@@ -607,10 +610,74 @@ def pred_tcp(case, stats):
     raise common.HarnessError('tcp cases are not individually replayable (they need a live server); rerun the tier')
 
 
+def fuzz_shard(job):
+    """atheris / libFuzzer subprocess: coverage-guided search with the C08 oracle inside the target."""
+    import json, os, shutil, subprocess, sys, tempfile
+    seed, runs, use_corpus = job
+    s = Stats()
+    try:
+        import atheris      # noqa
+    except Exception:
+        s.exclude('atheris not importable: coverage-guided stage skipped')
+        return s
+    work = tempfile.mkdtemp(prefix='vp-c08-fuzz-')
+    try:
+        out, corpus = os.path.join(work, 'out'), os.path.join(work, 'corpus')
+        os.makedirs(out)
+        os.makedirs(corpus)
+        if use_corpus:
+            # seed corpus: valid streams from the structured generator
+            import hypothesis
+            from hypothesis import given
+            seeds = []
+
+            @hypothesis.seed(seed)
+            @common.hyp_settings(40)
+            @given(cases(3))
+            def collect(case):
+                for seg in case['segments']:
+                    if seg['kind'] == 'frame':
+                        seg['mutation'] = 'none'
+                stream, _ = build_stream(case, 0x11223344, {x['name']: (tuple(x['address']) if x['address'] else (2, 1, 1 + i)) for i, x in enumerate(SPECS)})
+                seeds.append(bytes([1 if case['register_first'] else 0]) + stream)
+
+            collect()
+            for i, b in enumerate(seeds):
+                with open(os.path.join(corpus, 'seed%03d' % i), 'wb') as fh:
+                    fh.write(b[:600])
+        env = dict(os.environ)
+        cmd = [sys.executable, '-m', 'vp.fuzz_c08', out, corpus, '-runs=%d' % runs, '-seed=%d' % (seed % (2 ** 31) or 1), '-max_len=600',
+               '-timeout=25', '-rss_limit_mb=4096', '-artifact_prefix=' + out + os.sep, '-print_final_stats=0', '-verbosity=0']
+        proc = subprocess.run(cmd, env=env, stdout=subprocess.DEVNULL, stderr=subprocess.PIPE, timeout=3 * 3600)
+        executed = 0
+        for name in os.listdir(out):
+            pth = os.path.join(out, name)
+            if name.startswith('executions.'):
+                executed += int(open(pth).read() or 0)
+            elif name.endswith('.json'):
+                doc = json.load(open(pth))
+                common.run_pred(pred, doc['case'], s, 'stream')      # confirm in this process, with the watchdog
+            elif name.startswith(('timeout-', 'crash-', 'oom-')):
+                data = open(pth, 'rb').read()
+                case = {'register_first': bool(data[:1] and data[0] & 1), 'segments': [{'kind': 'random', 'bytes': data[1:].hex()}]}
+                common.run_pred(pred, case, s, 'stream')
+                if not s.fails and name.startswith('crash-'):
+                    s.notes.append('libFuzzer artifact %s did not reproduce under the oracle (stderr tail: %s)' % (name, proc.stderr[-300:].decode('latin-1')))
+        s.count('atheris:executions' + (':seeded-corpus' if use_corpus else ':empty-corpus'), executed)
+        s.evaluations += executed
+        if proc.returncode not in (0,) and not s.fails:
+            s.notes.append('atheris subprocess exit %d: %s' % (proc.returncode, proc.stderr[-300:].decode('latin-1')))
+    finally:
+        shutil.rmtree(work, ignore_errors=True)
+    return s
+
+
 def shard(job):
     kind = job[0]
     if kind == 'tcp':
         return tcp_shard(job[1:])
+    if kind == 'fuzz':
+        return fuzz_shard(job[1:])
     _, seed, i, n, k = job
     s = Stats()
     common.hyp_run(s, cases(k), pred, n, common.shard_seed(seed, i), 'stream', PID, skey=k)
@@ -619,7 +686,8 @@ def shard(job):
 
 def run(tier, seed):
     if tier == 'thorough':
-        jobs = [('hyp', seed, i, 4000, 8) for i in range(30)] + [('tcp', common.shard_seed(seed, 900 + i), 600) for i in range(2)]
+        jobs = ([('hyp', seed, i, 3000, 8) for i in range(24)] + [('tcp', common.shard_seed(seed, 900 + i), 600) for i in range(2)] +
+                [('fuzz', common.shard_seed(seed, 700 + i), 40000, i % 2 == 0) for i in range(6)])
     else:
         jobs = [('hyp', seed, i, 130, 6) for i in range(15)] + [('tcp', common.shard_seed(seed, 900), 150)]
     return common.parallel(shard, jobs)
